@@ -104,10 +104,28 @@ type asmOp struct {
 	label string // label name / comment text / T target ("o"/"c") / K capacity
 	data  []byte
 	addr  uint32
+	sub   [][]asmOp // (asm-cpu, kind D) the calls made on each side clone
 }
 
 func (o asmOp) String() string {
 	switch o.kind {
+	case 'D':
+		// (asm-cpu) side clones of the emitter in use: addr = which one is appended back (0 = all are dropped)
+		s := fmt.Sprintf("D keep=%d", o.addr)
+		for _, a := range o.args {
+			s += " " + strconv.FormatUint(uint64(a), 16)
+		}
+		for _, arm := range o.sub {
+			var ss []string
+			for _, ao := range arm {
+				ss = append(ss, ao.String())
+			}
+			s += " [" + strings.Join(ss, ", ") + "]"
+		}
+		return s
+	case 'r', 's':
+		// (asm-cpu) AssumeREP / AssumeSEP alone, no bytes
+		return string(o.kind) + " " + strconv.FormatUint(uint64(o.addr), 16)
 	case 'I':
 		s := "I " + o.m.name
 		if len(o.m.widths) == 1 && o.m.widths[0] == 0 {
@@ -636,14 +654,38 @@ func execAsm(c asmCase) asmRun {
 					res = "noclone"
 					break
 				}
-				before := snapshot(orig.e, names)
+				obsOrig := func() string {
+					o := snapshot(orig.e, names)
+					if c.text {
+						o += "|" + listings(orig.e)
+					}
+					return o
+				}
+				before := obsOrig()
+				// what the harness knows about the two buffers: the original's capacity is the size of the target it was created over
+				// (none: 0 bytes), the fragment is what the clone holds
+				len0, need := orig.e.Len(), clone.e.Len()
+				room := -len0
+				if c.cap > 0 {
+					room += c.cap
+				}
+				tgt := "a target of " + strconv.Itoa(c.cap) + " bytes"
+				if c.cap < 0 {
+					tgt = "no target buffer"
+				}
 				if safe(func() { orig.e.Append(clone.e) }) {
 					res = "refused"
-					if snapshot(orig.e, names) != before {
+					if obsOrig() != before {
 						complain("C16", "refused Append modified the original")
+					}
+					if need <= room {
+						complain("C16", fmt.Sprintf("Append of a clone holding %d byte(s) was refused although the original (%s, %d emitted) has room for %d: emitting the same calls directly is accepted", need, tgt, len0, room))
 					}
 				} else {
 					res = "ok"
+					if need > room {
+						complain("C16", fmt.Sprintf("an Append that does not fit was accepted: the clone holds %d byte(s), the original (%s, %d emitted) had room for %d", need, tgt, len0, room))
+					}
 					orig.refs, orig.labels = clone.refs, clone.labels
 					orig.starts = append(orig.starts, clone.starts...)
 				}
@@ -753,6 +795,105 @@ func listingOracle(hexRecs, textRecs, bytesHex string, base uint32, setBases int
 			if off < 0 || off+len(p[1]) > len(bytesHex) || bytesHex[off:off+len(p[1])] != p[1] {
 				return fmt.Sprintf("text listing line %s does not show the bytes at its address", r)
 			}
+		}
+	}
+	return ""
+}
+
+// issuedRecords: the labels and comments the emitter whose listing is taken at operation `upto` was given, in the order of the
+// calls, with a marker "x" wherever one or more byte-carrying calls (instructions, non-empty data blocks) were accepted in
+// between.  A clone lists its own calls; the original lists the clone's behind its own once the clone was appended.
+func issuedRecords(c asmCase, out []string, upto int) (issued []string, ok bool) {
+	var orig, clone []string
+	onClone, live := false, false
+	add := func(r string) {
+		l := &orig
+		if onClone && live {
+			l = &clone
+		}
+		if r == "x" && len(*l) > 0 && (*l)[len(*l)-1] == "x" {
+			return
+		}
+		*l = append(*l, r)
+	}
+	for j, o := range c.ops[:upto] {
+		if j >= len(out) {
+			return nil, false
+		}
+		acc := strings.HasPrefix(out[j], "ok")
+		switch o.kind {
+		case 'I':
+			if acc {
+				add("x")
+			}
+		case 'B':
+			if acc && len(o.data) > 0 {
+				add("x")
+			}
+		case 'L':
+			if acc {
+				add("lb:" + o.label)
+			}
+		case 'C':
+			add("cm:" + o.label)
+		case 'K':
+			clone, live, onClone = nil, true, true
+		case 'T':
+			onClone = o.label == "c"
+		case 'A':
+			onClone = false
+			if live && acc {
+				for _, r := range clone {
+					add(r)
+				}
+			}
+		}
+	}
+	if onClone && live {
+		return clone, true
+	}
+	return orig, true
+}
+
+// positionsOracle (C15: "labels, comments and base directives appearing at the positions where they were issued"): the label
+// and comment records of a listing are exactly the labels and comments issued, with their full text, in order, and byte-carrying
+// lines stand between them exactly where byte-carrying calls were made.
+func positionsOracle(issued []string, recs string) string {
+	var got []string
+	if recs != "" {
+		for _, r := range strings.Split(recs, "|") {
+			switch {
+			case strings.HasPrefix(r, "base@"):
+			case strings.HasPrefix(r, "lb@::"):
+				got = append(got, "lb:"+r[5:])
+			case strings.HasPrefix(r, "cm@::"):
+				got = append(got, "cm:"+r[5:])
+			case strings.HasPrefix(r, "??"):
+				return fmt.Sprintf("line %q is neither an instruction, a data row, a label, a comment nor a base directive", clip(r[2:], 120))
+			default:
+				if len(got) == 0 || got[len(got)-1] != "x" {
+					got = append(got, "x")
+				}
+			}
+		}
+	}
+	show := func(r string) string {
+		switch {
+		case r == "x":
+			return "lines carrying bytes"
+		case strings.HasPrefix(r, "lb:"):
+			return fmt.Sprintf("label %q (%d characters)", clip(r[3:], 60), len(r)-3)
+		}
+		return fmt.Sprintf("comment %q (%d characters)", clip(r[3:], 60), len(r)-3)
+	}
+	for i := 0; i < len(issued) || i < len(got); i++ {
+		switch {
+		case i >= len(got):
+			return fmt.Sprintf("%s was issued as record %d, the listing ends before it", show(issued[i]), i)
+		case i >= len(issued):
+			return fmt.Sprintf("the listing shows %s as record %d, nothing was issued there", show(got[i]), i)
+		case got[i] != issued[i]:
+			return fmt.Sprintf("record %d: %s was issued, the listing shows %s", i, show(issued[i]), show(got[i]))
 		}
 	}
 	return ""
@@ -956,6 +1097,193 @@ func branchDistanceCases(ms []asmMethod) []asmCase {
 	return cs
 }
 
+// longText: n characters, no two neighbouring stretches alike (a cut or a repetition anywhere changes the text)
+func longText(n int, salt int) string {
+	const alpha = "abcdefghijklmnopqrstuvwxyzABCDEFGHIJKLMNOPQRSTUVWXYZ0123456789_"
+	b := make([]byte, n)
+	for i := range b {
+		b[i] = alpha[(i*37+i/len(alpha)*11+salt)%len(alpha)]
+	}
+	return string(b)
+}
+
+// textLengths: comment / label lengths far beyond the usual; every length around one and four KiB-sized line buffers
+func textLengths() []int {
+	ls := []int{0, 1, 100}
+	for n := 1000; n <= 1100; n++ {
+		ls = append(ls, n)
+	}
+	return append(ls, 4090, 4096, 4100, 70000)
+}
+
+// longTextCases (C15: "whatever the length of data blocks or comments"): comments and label names of 0 .. 70000 characters
+// between instructions, labels and data blocks, the long label referenced forward and backward; data blocks of many thousand bytes
+func longTextCases(ms []asmMethod) []asmCase {
+	find := func(n string) *asmMethod { return findMethod(ms, n) }
+	nop, jsl, bne, bra, jmp := find("NOP"), find("JSL"), find("BNE"), find("BRA"), find("JMP_abs")
+	if nop == nil || jsl == nil || bne == nil || bra == nil || jmp == nil {
+		return nil
+	}
+	tail := []asmOp{{kind: 'Q'}, {kind: 'H'}, {kind: 'X'}, {kind: 'F'}, {kind: 'Q'}, {kind: 'H'}, {kind: 'X'}}
+	var cs []asmCase
+	for i, ln := range textLengths() {
+		var pre []asmOp
+		if i%2 == 1 {
+			pre = []asmOp{{kind: 'S', addr: 0x7E8000}}
+		}
+		cm := longText(ln, i)
+		ops := append(append([]asmOp{}, pre...),
+			asmOp{kind: 'I', m: nop}, asmOp{kind: 'C', label: cm}, asmOp{kind: 'I', m: jsl, args: []uint32{0x7E1234}},
+			asmOp{kind: 'C', label: cm}, asmOp{kind: 'L', label: "after"}, asmOp{kind: 'C', label: cm},
+			asmOp{kind: 'B', data: []byte{1, 2, 3, 4, 5, 6, 7, 8, 9, 10, 11, 12, 13, 14, 15, 16, 17}}, asmOp{kind: 'C', label: cm})
+		cs = append(cs, asmCase{cap: 64, text: true, ops: append(ops, tail...)})
+		lb := longText(ln, i+5)
+		ops = append(append([]asmOp{}, pre...),
+			asmOp{kind: 'I', m: bne, label: lb}, asmOp{kind: 'I', m: nop}, asmOp{kind: 'L', label: lb}, asmOp{kind: 'I', m: jsl, args: []uint32{0x7E1234}},
+			asmOp{kind: 'I', m: bra, label: lb}, asmOp{kind: 'L', label: "z"}, asmOp{kind: 'I', m: jmp, label: lb}, asmOp{kind: 'I', m: nop})
+		cs = append(cs, asmCase{cap: 64, text: true, ops: append(ops, tail...)})
+	}
+	for i, ln := range []int{4095, 4096, 4097, 10000, 20000} {
+		d := make([]byte, ln)
+		for j := range d {
+			d[j] = byte(j*13 + j>>8 + i)
+		}
+		ops := []asmOp{{kind: 'S', addr: []uint32{0x018000, 0x010000, 0x7E0000, 0, 0x020000}[i]}, {kind: 'C', label: "before"}, {kind: 'B', data: d}, {kind: 'L', label: "behind"}, {kind: 'I', m: nop}, {kind: 'B', data: d[:ln/3]}, {kind: 'C', label: "end"}}
+		cs = append(cs, asmCase{cap: ln + ln/3 + 10, text: true, ops: append(ops, tail...)})
+	}
+	return cs
+}
+
+// genLongTextCase: random histories in which comments, label names and data blocks are long
+func genLongTextCase(r *prng.R, ms []asmMethod, rep *report.Report) asmCase {
+	c := asmCase{text: r.Chance(90)}
+	lens := textLengths()
+	pick := func() int {
+		switch k := r.N(60); {
+		case k == 0:
+			return 70000
+		case k < 12:
+			return []int{0, 1, 100, 4090, 4096, 4100}[r.N(6)]
+		case k < 24:
+			return 200 + r.N(3000)
+		}
+		return lens[3+r.N(101)]
+	}
+	var labelMs, otherMs []int
+	for i, m := range ms {
+		if len(m.widths) == 1 && m.widths[0] == 0 {
+			labelMs = append(labelMs, i)
+		} else {
+			otherMs = append(otherMs, i)
+		}
+	}
+	names := []string{longText(pick(), r.N(50)), longText(pick(), 50+r.N(50)), "s"}
+	var body []asmOp
+	if r.Chance(50) {
+		body = append(body, asmOp{kind: 'S', addr: uint32(r.N(0x100))<<16 | 0x8000})
+	}
+	size := 0
+	defined := map[int]bool{}
+	for i := 2 + r.N(9); i > 0; i-- {
+		switch k := r.N(20); {
+		case k < 6:
+			m := &ms[otherMs[r.N(len(otherMs))]]
+			args := make([]uint32, len(m.widths))
+			for j := range args {
+				args[j] = r.U32()
+			}
+			body = append(body, asmOp{kind: 'I', m: m, args: args})
+			size += 4
+		case k < 9:
+			body = append(body, asmOp{kind: 'I', m: &ms[labelMs[r.N(len(labelMs))]], label: names[r.N(3)]})
+			size += 3
+		case k < 12:
+			j := r.N(3)
+			if defined[j] {
+				j = (j + 1) % 3
+			}
+			defined[j] = true
+			body = append(body, asmOp{kind: 'L', label: names[j]})
+		case k < 16:
+			body = append(body, asmOp{kind: 'C', label: longText(pick(), r.N(60))})
+			rep.Count("op: long comment")
+		default:
+			ln := []int{0, 1, 16, 17, 100, 1000, 1024, 3000, 5000}[r.N(9)]
+			d := make([]byte, ln)
+			for j := range d {
+				d[j] = r.U8()
+			}
+			body = append(body, asmOp{kind: 'B', data: d})
+			size += ln
+		}
+	}
+	c.cap = size + 50
+	if r.Chance(30) && len(body) > 1 {
+		k := 1 + r.N(len(body)-1)
+		pre, post := append([]asmOp{}, body[:k]...), append([]asmOp{}, body[k:]...)
+		body = append(append(append(pre, asmOp{kind: 'K', label: strconv.FormatInt(int64(c.cap), 16)}), post...), asmOp{kind: 'T', label: "o"}, asmOp{kind: 'Q'}, asmOp{kind: 'A'})
+	}
+	body = append(body, asmOp{kind: 'Q'})
+	if c.text {
+		body = append(body, asmOp{kind: 'H'}, asmOp{kind: 'X'})
+	}
+	if r.Chance(60) {
+		body = append(body, asmOp{kind: 'F'}, asmOp{kind: 'Q'})
+		if c.text {
+			body = append(body, asmOp{kind: 'H'}, asmOp{kind: 'X'})
+		}
+	}
+	c.ops = body
+	return c
+}
+
+// appendCapacityCases (C16 / C19: "an Append that does not fit the remaining capacity is refused without modifying the
+// original"): every combination of no target / too small / exact / ample targets for the original and for its clone.  The head
+// takes 5 bytes, the tail 7; the original goes on emitting after the Append whatever its outcome.
+func appendCapacityCases(ms []asmMethod) []asmCase {
+	find := func(n string) *asmMethod { return findMethod(ms, n) }
+	lda, bne, jmp, nop, rep := find("LDA_abs"), find("BNE"), find("JMP_abs"), find("NOP"), find("REP")
+	if lda == nil || bne == nil || jmp == nil || nop == nil || rep == nil {
+		return nil
+	}
+	capS := func(n int) string {
+		if n < 0 {
+			return "nil"
+		}
+		return strconv.FormatInt(int64(n), 16)
+	}
+	var cs []asmCase
+	for _, oc := range []int{-1, 0, 4, 5, 6, 11, 12, 13, 100} {
+		for _, cc := range []int{-1, 0, 1, 6, 7, 8, 100} {
+			for _, text := range []bool{false, true} {
+				for _, based := range []bool{false, true} {
+					var ops []asmOp
+					if based {
+						ops = append(ops, asmOp{kind: 'S', addr: 0x80FF00})
+					}
+					ops = append(ops, asmOp{kind: 'I', m: lda, args: []uint32{0x1234}}, asmOp{kind: 'I', m: bne, label: "fwd"}, asmOp{kind: 'L', label: "h"}, asmOp{kind: 'Q'},
+						asmOp{kind: 'K', label: capS(cc)})
+					if oc >= 0 && cc < 0 {
+						// a clone without a target that is appended to an original with one: the bytes it was given exist nowhere (the
+						// properties speak of clones over a real buffer, see the assumptions of C16); its tail carries no bytes
+						ops = append(ops, asmOp{kind: 'L', label: "fwd"}, asmOp{kind: 'C', label: "tail"}, asmOp{kind: 'B'}, asmOp{kind: 'Q'})
+					} else {
+						ops = append(ops, asmOp{kind: 'I', m: jmp, label: "h"}, asmOp{kind: 'I', m: rep, args: []uint32{0x30}}, asmOp{kind: 'L', label: "fwd"}, asmOp{kind: 'C', label: "tail"}, asmOp{kind: 'B', data: []byte{0xEA}}, asmOp{kind: 'I', m: nop}, asmOp{kind: 'Q'})
+					}
+					ops = append(ops, asmOp{kind: 'T', label: "o"}, asmOp{kind: 'Q'}, asmOp{kind: 'A'}, asmOp{kind: 'Q'},
+						asmOp{kind: 'I', m: nop}, asmOp{kind: 'L', label: "e"}, asmOp{kind: 'Q'})
+					if text {
+						ops = append(ops, asmOp{kind: 'H'}, asmOp{kind: 'X'})
+					}
+					ops = append(ops, asmOp{kind: 'F'}, asmOp{kind: 'Q'})
+					cs = append(cs, asmCase{cap: oc, text: text, ops: ops})
+				}
+			}
+		}
+	}
+	return cs
+}
+
 func shrinkAsm(c asmCase, fails func(asmCase) bool) asmCase {
 	for changed := true; changed; {
 		changed = false
@@ -1028,6 +1356,20 @@ func runAsm() {
 	}
 	r := prng.New(seed)
 	cases := branchDistanceCases(ms)
+	lt := longTextCases(ms)
+	rep.CountN("directed: comments / label names of 0..70000 characters, data blocks of 4095..20000 bytes", int64(len(lt)))
+	cases = append(cases, lt...)
+	ac := appendCapacityCases(ms)
+	rep.CountN("directed: Append with no / too small / exact / ample targets of original and clone", int64(len(ac)))
+	cases = append(cases, ac...)
+	nLong := 300
+	if tier == "thorough" {
+		nLong = 3000
+	}
+	rl := prng.New(seed ^ 0x10D67E87)
+	for i := 0; i < nLong; i++ {
+		cases = append(cases, genLongTextCase(rl.Fork(), ms, rep))
+	}
 	for i := 0; i < n; i++ {
 		cases = append(cases, genAsmCase(r.Fork(), ms, rep))
 	}
@@ -1048,6 +1390,7 @@ func runAsm() {
 		}
 	}
 	distinct := map[string]bool{}
+	nShrunk := map[string]int{}
 	var ops int64
 	// families of emitters first (their own PRNG stream; the histories below are the same as before for a given seed)
 	nFam := 1500
@@ -1105,6 +1448,14 @@ func runAsm() {
 						if msg := listingOracle(lastH, run.out[j], strings.TrimPrefix(f[6], "b="), uint32(base), nsb); msg != "" {
 							run.oracle = append(run.oracle, "C15: "+msg)
 						}
+						if issued, ok := issuedRecords(c, run.out, j); ok {
+							for w, recs := range []string{lastH, run.out[j]} {
+								if msg := positionsOracle(issued, recs); msg != "" {
+									run.oracle = append(run.oracle, "C15: "+[]string{"hex", "text"}[w]+" listing: "+msg)
+									break
+								}
+							}
+						}
 					}
 				}
 			}
@@ -1138,6 +1489,10 @@ func runAsm() {
 		}
 		for _, msg := range run.oracle {
 			prop := propsOfOracle(msg)
+			if nShrunk[prop] >= 40 {
+				continue // forty shrunk failing histories per property are reported; the rest would repeat them
+			}
+			nShrunk[prop]++
 			m := shrinkAsm(c, func(x asmCase) bool {
 				for _, mm := range execAsm(x).oracle {
 					if propsOfOracle(mm) == prop {
@@ -1181,7 +1536,10 @@ func runAsm() {
 	rep.CountN("histories", int64(len(cases)))
 	rep.Rule = "families of emitters (Go oracles only): 1..3 roots fed the same head plus a dry-run root, clones of the first root with and without a buffer and of the dry root fed the same tail, " +
 		"the clone appended back and to the other roots while the clone, the original and the receivers go on emitting, every live emitter re-observed (state, hex and text listing) after every call; " +
-		"directed: a fragment of 0..17 listing records handed to two fresh emitters; " +
+		"directed: a fragment of 0..17 listing records handed to two fresh emitters; a clone with a buffer appended to an original without one (C16: an Append that does not fit is refused, one that fits is accepted); " +
+		"directed: comments and label names of 0, 1, 100, 1000..1100, 4090..4100 and 70000 characters between instructions, labels and data blocks, long labels referenced forward and backward, data blocks of 4095..20000 bytes with listing on, " +
+		"plus random histories of such texts (C15 clause added: the label and comment records of both listings are the labels and comments issued, in full, in order, with byte-carrying lines exactly where byte-carrying calls were made); " +
+		"directed: Append for every combination of no / too small / exact / ample target of the original (9 sizes) and of the clone (7 sizes), listing on and off, with and without base, the original going on afterwards; " +
 		"directed branch distances 0..130 and 32766..131071 in both directions; target buffers: plain and windows into a larger array (guarded); label names of 2..21 characters; " +
 		"random emitter histories over all instruction methods (by reflection), labels before/after/missing/redefined, data blocks of lengths 0,1,15,16,17,31,32,33,48,100.., comments, " +
 		"non-zero bases, REP/SEP masks, capacities from 0 to ample and nil targets, clone/append splits with observation of the original in between; directed branch distances 0,1,125..130 forward and backward; " +
